@@ -595,6 +595,7 @@ func diffCase(r *vf.Run, i int, tag string) {
 	nd := report(r, cc, cs, idx)
 	// --- Clone + Close: closing a clone must not change what the origin answers
 	//     (memory: Close is a no-op). Done last because it may destroy the db reader.
+	cloneRightAfterOpen(r, cs, idx, i, bdb, dm, dd, probeSeed)
 	cloneClose(r, cs, idx, mem.r, dbo.r, rep)
 
 	// non-triviality
@@ -622,6 +623,118 @@ func diffCase(r *vf.Run, i int, tag string) {
 		r.Sample(map[string]any{"case": idx, "desc": trunc(cs.Desc, 600), "paths": paths, "files_read": filesRead, "divergences": nd,
 			"memory_ops": strings.Join(dm.OpTrace, ","), "db_ops": strings.Join(dd.OpTrace, ","), "toc_digest": dm.TOCDigest})
 	}
+}
+
+// cloneRightAfterOpen: clause "clone right after open". A fresh reader of each store is
+// opened and Clone(sr) is called IMMEDIATELY, before any other call on the original; the
+// CLONE is then walked fully. This is what the production background fetch does
+// (VerifiableReader.Cache(WithReader(sr)) clones first). The db store fills its buckets in a
+// background goroutine and every accessor waits on the reader's own initG; a clone has a
+// fresh initG, so nothing but Clone itself can make a clone wait for the load.
+//
+// Compared: memory clone vs db clone, and db original (walked after the load, dd) vs db
+// clone. GetAttr(root) of the clone never waits by design (known finding): its divergences
+// go under rootattr:not-waiting-for-load@db; everything else under
+// clone:right-after-open:<class>@db.
+func cloneRightAfterOpen(r *vf.Run, cs *oneCase, idx string, i int, bdb *bolt.DB, dm, dd *Dump, probeSeed uint64) {
+	m2 := openMem(cs)
+	d2 := openDB(bdb, cs)
+	var mc, dc metadata.Reader
+	var merr, derr error
+	if d2.err == nil {
+		dc, derr = d2.r.Clone(section(cs.Blob)) // first call on the fresh db reader
+	}
+	if m2.err == nil {
+		mc, merr = m2.r.Clone(section(cs.Blob))
+	}
+	defer func() {
+		// clones are never closed (a db clone shares its origin's bucket: known finding)
+		if m2.r != nil {
+			m2.r.Close()
+		}
+		if d2.r != nil {
+			d2.r.Close()
+		}
+	}()
+	if m2.err != nil || d2.err != nil {
+		r.Count("clone_right_after_open:skipped(open failed)", 1)
+		return
+	}
+	if (merr == nil) != (derr == nil) {
+		who, e := "db", derr
+		if merr != nil {
+			who, e = "memory", merr
+		}
+		r.Violate("clone:right-after-open:clone-fails@"+who, "Clone right after open fails on the "+who+" store only: "+fmt.Sprint(e), map[string]any{"case": idx, "desc": cs.Desc})
+		return
+	}
+	if merr != nil {
+		return
+	}
+	var cm, cd *Dump
+	if r.RaceBuild {
+		var wg sync.WaitGroup
+		wg.Add(2)
+		go func() {
+			defer wg.Done()
+			cm = walk("memory-clone", mc, cs.Blob, r.RNG(uint64(i), 4), probeSeed, cs.Truth, 0, true)
+		}()
+		go func() {
+			defer wg.Done()
+			cd = walk("db-clone", dc, cs.Blob, r.RNG(uint64(i), 5), probeSeed, cs.Truth, 0, true)
+		}()
+		wg.Wait()
+	} else {
+		// the db clone first: it is the one that must not have been given time
+		cd = walk("db-clone", dc, cs.Blob, r.RNG(uint64(i), 5), probeSeed, cs.Truth, 0, true)
+		cm = walk("memory-clone", mc, cs.Blob, r.RNG(uint64(i), 4), probeSeed, cs.Truth, 0, true)
+	}
+	countDump(r, cm)
+	countDump(r, cd)
+	r.Count("clone_right_after_open:walked", 1)
+	r.Count("clone_right_after_open:paths_in_db_clone", len(cd.Nodes))
+	remap := func(c *cmpCtx, what string) {
+		for k := range c.out {
+			f := &c.out[k]
+			orig := f.Key
+			f.Detail["comparison"] = what
+			f.Detail["original_key"] = orig
+			if f.Path == "" && !strings.HasSuffix(orig, "@getchild") {
+				switch strings.SplitN(orig, ":", 2)[0] {
+				case "attr", "nlink", "xattr", "dup-dir":
+					f.Key = "rootattr:not-waiting-for-load@db"
+					f.What = "GetAttr(root) of a clone taken right after open differs (" + orig + "): " + f.What
+					continue
+				}
+			}
+			class := "reader-differs"
+			switch strings.SplitN(orig, ":", 2)[0] {
+			case "tree":
+				class = "tree-differs"
+			case "attr", "nlink", "xattr", "dup-dir", "foreachchild", "getchild", "hardlink":
+				class = "attrs-differ"
+			case "chunks", "bytes", "openfile", "openfilewithprereader", "preread", "getoffset":
+				class = "files-differ"
+			}
+			side := "db"
+			if strings.HasSuffix(orig, "@memory") {
+				side = "memory"
+			}
+			f.Key = "clone:right-after-open:" + class + "@" + side
+			f.What = "a clone taken right after NewReader (no other call on the original first) answers differently (" + what + "; " + orig + "): " + f.What
+		}
+	}
+	c1 := compareDumps("stores", "memory", "db", cm, cd, cs.Facts)
+	remap(c1, "memory clone vs db clone")
+	n := report(r, c1, cs, idx)
+	// db original after its load (light probing on the clone: compare what both asked)
+	c2 := compareDumps("stores", "db-original", "db", dd, cd, cs.Facts)
+	remap(c2, "db original walked after the load vs db clone")
+	n += report(r, c2, cs, idx)
+	if n == 0 {
+		r.Count("clone_right_after_open:equal", 1)
+	}
+	_ = dm
 }
 
 // cloneClose: two call sequences around Clone + Close, the same on both stores.
@@ -726,6 +839,7 @@ type layerRun struct {
 	closeErr                   error
 	walking                    atomic.Bool
 	closedWhileSurvivorWalking bool
+	earlyClone                 bool
 }
 
 func shareScenario(r *vf.Run, s int, pl []planLayer) {
@@ -808,6 +922,15 @@ func shareScenario(r *vf.Run, s int, pl []planLayer) {
 				return
 			}
 			rd := o.r
+			// every other survivor: Clone as the FIRST call on the fresh reader; the
+			// second walker then walks that clone instead of the reader itself
+			var early metadata.Reader
+			if l.role == "survivor" && j%2 == 0 {
+				if c, err := rd.Clone(section(l.cs.Blob)); err == nil {
+					early = c
+					l.earlyClone = true
+				}
+			}
 			w1 := r.RNG(5002, uint64(s), uint64(j))
 			switch l.role {
 			case "close-at-once":
@@ -834,7 +957,11 @@ func shareScenario(r *vf.Run, s int, pl []planLayer) {
 				wg.Add(1)
 				go func() { // a second walker on the very same reader
 					defer wg.Done()
-					l.firstB = walk("db-shared-b", rd, l.cs.Blob, r.RNG(5003, uint64(s), uint64(j)), probe, l.cs.Truth, 1, l.cs.Light)
+					tgt := rd
+					if early != nil {
+						tgt = early
+					}
+					l.firstB = walk("db-shared-b", tgt, l.cs.Blob, r.RNG(5003, uint64(s), uint64(j)), probe, l.cs.Truth, 1, l.cs.Light)
 				}()
 				l.first = walk("db-shared", rd, l.cs.Blob, w1, probe, l.cs.Truth, 1, l.cs.Light)
 				wg.Wait()
@@ -881,7 +1008,18 @@ func shareScenario(r *vf.Run, s int, pl []planLayer) {
 			initErrs(r, "sharing", l.alone, l.first, idx, l.cs)
 		}
 		if l.firstB != nil {
-			report(r, compareDumps("concurrent", "walker-a", "walker-b", l.first, l.firstB, l.cs.Facts), l.cs, idx)
+			if l.earlyClone {
+				r.Count("share_survivors_second_walker_on_clone_taken_right_after_open", 1)
+				cc := compareDumps("concurrent", "reader", "clone-right-after-open", l.first, l.firstB, l.cs.Facts)
+				for k := range cc.out {
+					cc.out[k].Detail["original_key"] = cc.out[k].Key
+					cc.out[k].Key = "clone:right-after-open:differs-from-its-origin@db"
+					cc.out[k].What = "shared bolt file: a clone taken right after NewReader answers differently from the reader it was cloned from: " + cc.out[k].What
+				}
+				report(r, cc, l.cs, idx)
+			} else {
+				report(r, compareDumps("concurrent", "walker-a", "walker-b", l.first, l.firstB, l.cs.Facts), l.cs, idx)
+			}
 		}
 		if l.second != nil {
 			survivors++
